@@ -1,7 +1,7 @@
 (* C14 — Line-break style does not change the parse.  (theorems: Proofs/BreakProofs.v) *)
 From Coq Require Import List NArith Bool.
 Import ListNotations.
-Require Import Parser SBase SFetch Pipe Positions BreakProofs ScanBrk ScanBrkParse ScanBrkTop ScanBrkAll.
+Require Import Parser SBase SBuf SFetch Pipe Positions BreakProofs ScanBrk ScanBrkParse ScanBrkTop ScanBrkAll BufferedTransfer.
 Open Scope N_scope.
 
 (* Line and column of the image of a position are unchanged when every LF is replaced by CR LF or by CR:
@@ -53,3 +53,27 @@ Theorem C14_cr : forall x : list chr, nocr x ->
   Forall2 EVR (fst (run_str x)) (fst (run_str (cr x))) /\ PER (snd (run_str x)) (snd (run_str (cr x))).
 Proof. exact pipeline_cr_total. Qed.
 Print Assumptions C14_cr.
+
+(* The same over BUFFERED input back-ends of any capacities >= 8 (the two runs may use different ones), by C10's
+   value-level agreement of the back-ends; the only hypothesis left is that the buffered runs do not exhaust their fuel
+   (bounded work is proved for the string instance only; monitored by the correspondence run). *)
+Theorem C14_crlf_buffered : forall (x : list chr) cap1 cap2,
+  (8 <= cap1)%nat -> (8 <= cap2)%nat -> nocr x ->
+  snd (run_buf cap1 x) <> PFuel -> snd (run_buf cap2 (crlf x)) <> PFuel ->
+  Forall2 EVR (fst (run_buf cap1 x)) (fst (run_buf cap2 (crlf x)))
+  /\ PER (snd (run_buf cap1 x)) (snd (run_buf cap2 (crlf x))).
+Proof. exact pipeline_crlf_buffered. Qed.
+Print Assumptions C14_crlf_buffered.
+
+Theorem C14_cr_buffered : forall (x : list chr) cap1 cap2,
+  (8 <= cap1)%nat -> (8 <= cap2)%nat -> nocr x ->
+  snd (run_buf cap1 x) <> PFuel -> snd (run_buf cap2 (cr x)) <> PFuel ->
+  Forall2 EVR (fst (run_buf cap1 x)) (fst (run_buf cap2 (cr x)))
+  /\ PER (snd (run_buf cap1 x)) (snd (run_buf cap2 (cr x))).
+Proof. exact pipeline_cr_buffered. Qed.
+Print Assumptions C14_cr_buffered.
+
+Example C14_buffered_example :
+  let x := [97; 58; 10; 32; 32; 45; 32; 98; 10; 32; 32; 45; 32; 34; 99; 10; 32; 32; 32; 32; 100; 34; 10] in
+  snd (run_buf 8 x) = PDone /\ snd (run_buf 16 (crlf x)) = PDone.
+Proof. vm_compute. split; reflexivity. Qed.
